@@ -12,8 +12,10 @@ META = {
                   "hence write(load(write c)) = write c; the string encoder/decoder pair round-trips every UTF-8 string and "
                   "key quoting round-trips every key incl. the empty one. The model is tied to config.go/version.go/go-toml "
                   "by ~1500 generated configurations (every control character, quote styles, DEL, Latin-1, BMP, astral, "
-                  "empty, invalid UTF-8, canonical and non-canonical versions, clean and unclean paths, all 16 layouts, "
-                  "many-requirement maps): written bytes and loaded structure compared exactly.",
+                  "empty, invalid UTF-8, canonical and non-canonical versions, clean and unclean paths ('@' in any segment, major "
+                  "suffixes of every length and digit pattern), all 16 layouts, many-requirement maps): written bytes and loaded "
+                  "structure compared exactly; every path/version string with a function-level case is also inside a whole "
+                  "configuration under the direct round-trip oracle.",
     "level_note": "Trusted: Coq kernel. go-toml v2 (encoder as called by dawn; decoder on the grammar the writer emits), "
                   "golang.org/x/mod/semver and path.Clean are third-party: modelled, validated by the correspondence only. "
                   "The model decoder covers only documents the writer produces; hand-edited dawn.toml files are out of scope. "
@@ -70,6 +72,7 @@ def run(ctx):
         dist[key] = dist.get(key, 0) + 1
 
     nvalid = 0
+    stats = {}
     for r in recs:
         if r["t"] == "ORACLE":
             oracles.append(r)
@@ -77,6 +80,11 @@ def run(ctx):
             add("CSemver %s %s" % (hb(r["s"]), cq_bool(r["ok"])), r, "semver:" + ("canonical" if r["ok"] else "rejected"))
         elif r["t"] == "clean":
             add("CClean %s %s" % (hb(r["s"]), hb(r["out"])), r, "cleanpath:" + ("fixed-point" if r["s"] == r["out"] else "changed"))
+            # the harness's own definition of the clean form (it decides which configurations are inside the quantifier)
+            # is held to the model as well; on the unchanged tree this is the same term and costs nothing
+            add("CClean %s %s" % (hb(r["s"]), hb(r["ref"])), {"t": "clean-reference", "s": r["s"], "out": r["ref"]}, "cleanpath:reference")
+        elif r["t"] == "stats":
+            stats = r
         elif r["t"] == "cfg":
             if "panic" in r:
                 panics.append(r)
@@ -95,7 +103,15 @@ def run(ctx):
                             "those bytes; one semver verdict; one CleanPath result), duplicates removed; configurations: ~125 string "
                             "classes (each control char, quotes, DEL, Latin-1, BMP, astral, empty, invalid UTF-8) x 9 positions, "
                             "version and path lists, 16 layouts, many-requirement maps, seeded random ones; non-trivial = written bytes "
-                            "or successful loads; %d of the generated configurations are valid (oracle applies)" % nvalid)
+                            "or successful loads; %d of the generated configurations are valid (oracle applies). Validity is decided "
+                            "without the code under test (x/mod/semver; a reference clean form held to the model). Paths: all strings "
+                            "over {a / . @ v 2 1} up to length 4, 'a@'/'x.y/z-w@' + every 1- and 2-digit major, 3-digit over {0,1,2,9}, "
+                            "long digit runs, non-numeric suffixes, every 1- and 2-segment path over 17 '@'-bearing segments under 3 roots, "
+                            "sampled 3-4 segment ones; every one of these strings that is in clean form (%s of %s) and every canonical "
+                            "version string (%s of %s) is also a requirement of a packed whole configuration under the direct oracle; "
+                            "failing configurations are shrunk before being reported"
+                            % (nvalid, stats.get("paths_in_configs"), stats.get("path_strings"), stats.get("versions_in_configs"),
+                               stats.get("version_strings")))
     ctx.coverage["exhaustive"] = False
     ctx.coverage["correspondence"]["distribution"] = dist
     ctx.add_samples([{"config": show_cfg(r["cfg"]), "bytes": bytes.fromhex(r["bytes"]).decode("utf-8", "backslashreplace")}
@@ -109,17 +125,24 @@ def run(ctx):
         ctx.violation("implementation violates C19 oracle %s on %s (%d failing configurations)" % (name, show_cfg(r["cfg"]), len(rs)),
                       {"oracle": name, "config": show_cfg(r["cfg"]), "config_hex": r["cfg"],
                        "written_bytes": bytes.fromhex(r["bytes"]).decode("utf-8", "backslashreplace"), "detail": r["detail"],
+                       "found_in": r.get("from"), "shrunk_from": show_cfg(r["orig"]) if r.get("orig") and r["orig"] != r["cfg"] else None,
                        "how": "WriteConfigFile(tmp, cfg); LoadConfigFile(tmp); WriteConfigFile again; "
                               "harness/overlay/internal/project/zz_verif_c19_test.go"},
                       key={"second-write-differs": "rewrite-not-stable"}.get(name, name))
     for r in panics:
         ctx.violation("config code panics (%s)" % r["panic"], {"config": show_cfg(r["cfg"]), "config_hex": r["cfg"]})
 
-    shard = 400
-    exprs = []
-    for i in range(0, len(cases), shard):
-        items = ["(%s, %s)" % (cq_N(i + j), c) for j, c in enumerate(cases[i:i + shard])]
-        exprs.append("mismatches [\n" + ";\n".join(items) + "]")
+    # shards of equal estimated cost (term size), as many as coq_eval runs at once: cheap function-level cases and
+    # expensive many-requirement configurations are spread evenly instead of in generation order
+    import heapq
+    nsh = max(1, min(14, len(cases) // 100))
+    heap = [(0, k) for k in range(nsh)]
+    buckets = [[] for _ in range(nsh)]
+    for i in sorted(range(len(cases)), key=lambda i: -len(cases[i])):
+        w, k = heapq.heappop(heap)
+        buckets[k].append(i)
+        heapq.heappush(heap, (w + len(cases[i]) + 200, k))
+    exprs = ["mismatches [\n" + ";\n".join("(%s, %s)" % (cq_N(i), cases[i]) for i in sorted(b)) + "]" for b in buckets if b]
     okc, res, logs = ctx.coq_eval(HDR, exprs)
     if not okc:
         ctx.log("coq evaluation failed", logs[:1])
